@@ -363,7 +363,8 @@ def spring_rest(kind):
       return [out_ang, out_vel, par]
     with cut('brax.kinematics:link_to_joint_frame', 'brax.kinematics:axis_angle_ang'):
       I = Interp(A, cuts={'brax.kinematics:link_to_joint_frame': h_frame})
-      f = sym_call(I, joints._one_dof, link, Transform(pos=Sym(jpos), rot=Sym(jrot)), Motion(ang=jp.zeros(3), vel=jp.zeros(3)), dof, jp.zeros(1))
+      from verif.contracts.common import by_name
+      f = sym_call(I, by_name(joints._one_dof, ('link', 'j', 'jd', 'dof', 'tau')), link, Transform(pos=Sym(jpos), rot=Sym(jrot)), Motion(ang=jp.zeros(3), vel=jp.zeros(3)), dof, jp.zeros(1))
     r = combine([ring_equal(A, f.vel, np.zeros(3, dtype=object), name='force'), ring_equal(A, f.ang, np.zeros(3, dtype=object), name='torque')])
     if r.verdict == REFUTED:
       rb_ = _rest_case(np.random.RandomState(0), 6)
